@@ -36,6 +36,8 @@ func init() {
 		Explain: "Decides that snapshot I/O failures cannot crash the node or stop recording, structurally: the Snapshotter's file/writer handles are never left nil by any function (a nil store must be overwritten before every return), so no later use dereferences a nil writer; every error of a write/flush on the append path reaches the append wrapper's recovery branch, which (behind the retry interval only) re-runs compaction from in-memory state; errors of open/sync/rename are branched on and never flow into a panic; the tee goroutine that delivers events shares no handle state with the writer goroutine. Which faults an OS can produce and the 30 s timing are not covered.",
 		Run:     runC12,
 		Mutants: []Mutant{
+			{Name: "compact-before-buffering", File: "serf/snapshot.go", Func: "func (s *Snapshotter) appendLine(", Old: "\tn, err := s.buffered.WriteString(l)\n", New: "\tif s.offset+int64(len(l)) > s.snapshotMaxSize() {\n\t\tif err := s.compact(); err != nil {\n\t\t\treturn err\n\t\t}\n\t}\n\tn, err := s.buffered.WriteString(l)\n", Expect: "R3|appendLine"},
+			{Name: "throttle-armed-by-routine-compaction", File: "serf/snapshot.go", Func: "func (s *Snapshotter) compact(", Old: "\tnewPath := s.path + tmpExt\n", New: "\ts.lastAttemptedCompaction = time.Now()\n\tnewPath := s.path + tmpExt\n", Expect: "R4|throttle-writer"},
 			{Name: "handles-nil-on-error", File: "serf/snapshot.go", Func: "func (s *Snapshotter) compact(", Old: "\ts.fh.Close()\n\n\t// Move the new file into place\n", New: "\ts.fh.Close()\n\ts.buffered = nil\n\n\t// Move the new file into place\n", Expect: "R1"},
 			{Name: "recovery-depends-on-old-handle", File: "serf/snapshot.go", Func: "func (s *Snapshotter) compact(", Old: "\ts.fh.Close()\n\n\t// Move the new file into place\n", New: "\tif err := s.fh.Close(); err != nil {\n\t\treturn err\n\t}\n\n\t// Move the new file into place\n", Expect: "R4"},
 			{Name: "append-swallows-write-error", File: "serf/snapshot.go", Func: "func (s *Snapshotter) appendLine(", Old: "\tn, err := s.buffered.WriteString(l)\n\tif err != nil {\n\t\treturn err\n\t}\n", New: "\tn, _ := s.buffered.WriteString(l)\n", Expect: "R3"},
@@ -314,6 +316,18 @@ func runC12(c *an.Ctx) {
 			c.Add(used, "R3", "appendLine:compact-error-returned", call, "the result of a size-triggered compaction is returned", "result path")
 		}
 	}
+	// the retry throttle is armed only by a recovery attempt (a routine, size-triggered compaction must not
+	// postpone the recovery from a later write error)
+	nThr := 0
+	for _, a := range an.FieldAccesses(fns, "Snapshotter", "lastAttemptedCompaction") {
+		if a.Init || a.Kind != "store" {
+			continue
+		}
+		nThr++
+		c.Add(an.FuncName(a.Fn) == "(*Snapshotter).tryAppend" && an.GuardedBy(a.Fn, a.Instr, an.Cmp{L: "(*Snapshotter).appendLine($0,$1)", Op: "!=", R: "c:nil"}), "R4", "throttle-writer:"+an.FuncName(a.Fn), a.Instr, "lastAttemptedCompaction is set only by tryAppend's recovery branch (after a failed append)", "who-may-write + edge dominance")
+	}
+	c.Floor("R4", "writers of the recovery throttle", nThr, 1)
+	appendOrderRule(c, "R3")
 	if ta := sm(c, "R4", "Snapshotter", "tryAppend"); ta != nil {
 		errEdge := an.Cmp{L: "(*Snapshotter).appendLine($0,$1)", Op: "!=", R: "c:nil"}
 		comp := an.CallsTo(ta, "(*Snapshotter).compact")
@@ -460,5 +474,29 @@ func runC12(c *an.Ctx) {
 			})
 		}
 		c.Add(nb >= 2, "R5", "teeStream:non-blocking", ts, "both hand-offs of the tee are non-blocking, so a stalled writer cannot stop delivery", "select enumeration")
+	}
+}
+
+// appendOrderRule: appendLine hands the line to the buffered writer before it considers a compaction, and
+// nothing but the writer's own error can keep the line from being buffered. (If the compaction came first, a
+// failing compaction would drop the line — for the leave marker that means the leave is forgotten.)
+func appendOrderRule(c *an.Ctx, rule string) {
+	al := sm(c, rule, "Snapshotter", "appendLine")
+	if al == nil {
+		return
+	}
+	writes := an.FindInstrs(al, func(in ssa.Instruction) bool {
+		return an.IsCallTo(in, "bufio.(*Writer).WriteString") && an.Path(an.CallOf(in).Args[0]) == "$0.buffered" && an.Path(an.CallOf(in).Args[1]) == "$1"
+	})
+	c.Floor(rule, "buffered writes of the line in appendLine", len(writes), 1)
+	for _, w := range writes {
+		extra := ""
+		for _, f := range necessaryFacts(al, w) {
+			extra += f.String() + "; "
+		}
+		c.Add(extra == "", rule, "appendLine:line-buffered-unconditionally", w, "the line is handed to the buffered writer unconditionally (conditions: "+extra+")", "necessary-edge enumeration")
+		for _, k := range an.CallsTo(al, "(*Snapshotter).compact") {
+			c.Add(an.Dominates(w, k) && !an.Reaches(al, k, w), rule, "appendLine:buffer-before-compact", k, "a size-triggered compaction is considered only after the line was buffered", "dominance")
+		}
 	}
 }
